@@ -1,0 +1,59 @@
+//go:build verif
+
+package main
+
+import (
+	"fmt"
+	"os"
+	"strconv"
+	"strings"
+	"sync"
+	"syscall"
+
+	"github.com/akrennmair/updog"
+)
+
+// With the "verif" build tag the CLI can be told to log every verification
+// point to a file (UPDOG_VERIF_TRACE) and to kill itself with SIGKILL at the
+// n-th point (UPDOG_VERIF_KILL_AT), which is a real crash at a deterministic
+// commit boundary.
+func init() {
+	killAt, _ := strconv.Atoi(os.Getenv("UPDOG_VERIF_KILL_AT"))
+	tracePath := os.Getenv("UPDOG_VERIF_TRACE")
+
+	if killAt <= 0 && tracePath == "" {
+		return
+	}
+
+	var (
+		mtx   sync.Mutex
+		count int
+		trace *os.File
+	)
+
+	if tracePath != "" {
+		trace, _ = os.OpenFile(tracePath, os.O_CREATE|os.O_WRONLY|os.O_APPEND, 0644)
+	}
+
+	updog.VerifSetHook(func(site string) {
+		mtx.Lock()
+		defer mtx.Unlock()
+
+		// only commit boundaries are crash points; the per-row sites are not.
+		if strings.HasSuffix(site, ".addrow") {
+			return
+		}
+
+		count++
+
+		if trace != nil {
+			fmt.Fprintf(trace, "%d %s\n", count, site)
+			_ = trace.Sync()
+		}
+
+		if killAt > 0 && count == killAt {
+			_ = syscall.Kill(os.Getpid(), syscall.SIGKILL)
+			select {}
+		}
+	})
+}
